@@ -1,6 +1,101 @@
 import SR.Drv.Loop
-/-! Driver commands for C10 (stub). -/
+import SR.Hash.Codec
+import SR.Util.Rewrite
+/-! Driver commands for C10 (a) plans / reindex / rewrite and (b) representative.
+Model commands carry the implementation's result and answer `ok` when the model's result is the same value
+(hash-table collections compared as sets), otherwise they print the model's result — so the cases file needs
+no canonical printing of hash tables.  Oracle commands: `o-plan` (the plan is THE stable sorting permutation,
+checked declaratively), `o-orbit` (brute force over all n! permutations: some single permutation explains
+the representative). -/
 namespace SR.Drv.C10
+open SR SR.Hash SR.RW
+
+def resStr {τ : Ty} : Option (Val τ) → String
+  | none => "panic"
+  | some v => encodeVal τ v
+
+/-- compare the model's result with the implementation's (given as S-expression or `panic`) -/
+def agree (τ : Ty) (eq : Val τ → Val τ → Bool) (model : Option (Val τ)) (impl : SExp) : Option String :=
+  match impl with
+  | .atom "panic" => some (if model.isNone then "ok" else resStr model)
+  | e => do
+    let r ← decodeVal τ e
+    pure (match model with
+      | some v => if eq v r then "ok" else encodeVal τ v
+      | none => "panic")
+
+def stStr {s m t r h : Ty} (x : St s m t r h) : String :=
+  "(" ++ encodeVal (.vec s) x.actors ++ " (" ++ encodeVal h x.history ++ " (" ++ encodeVal (.vec (Ty.timers t)) x.timers ++
+    " (" ++ encodeVal (Ty.net m) x.net ++ " (" ++ encodeVal (.vec .bool) x.crashed ++ " " ++ encodeVal (.choices r) x.choices ++ ")))))"
+
+/-- the five component types of a `(state s m t r h)` code -/
+def stateTys : SExp → Option (Ty × Ty × Ty × Ty × Ty)
+  | .list [.atom "state", s, m, t, r, h] => do
+    pure (← decodeTy s, ← decodeTy m, ← decodeTy t, ← decodeTy r, ← decodeTy h)
+  | _ => none
+
+/-- exact list equality up to `≈` of the elements (no padding normalisation) -/
+def listEq (τ : Ty) (a b : List (Val τ)) : Bool := all2B (equivB τ) a b
+
 def handle : Drv.Handler
+  | "plan", [ty, vs] => do
+    let τ ← decodeTy ty
+    let vs ← decodeVal (.vec τ) vs
+    pure (natsStr (DNM.planOf (leVal τ) vs))
+  -- oracle: the implementation's plan is a bijection on indices, sorted and stable
+  | "o-plan", [ty, vs, plan] => do
+    let τ ← decodeTy ty
+    let vs : List (Val τ) ← decodeVal (.vec τ) vs
+    let plan ← plan.nats?
+    let n := vs.length
+    let idx := List.range n
+    let bij := plan.length == n && idx.all (fun k => plan.count k == 1)
+    let ordered := idx.all fun i => idx.all fun j =>
+      if i < j then
+        match vs[i]?, vs[j]?, plan[i]?, plan[j]? with
+        | some a, some b, some pi, some pj =>
+          -- a ≤ b (ties included): i stays before j (sorted + stable); a > b: j goes first
+          if leVal τ a b then decide (pi < pj) else decide (pj < pi)
+        | _, _, _, _ => false
+      else true
+    pure (if !bij then "plan-not-a-bijection" else if !ordered then "plan-not-the-stable-sorting-permutation" else "ok")
+  | "reindex", [ty, vs, ty2, xs, res] => do
+    let τ ← decodeTy ty
+    let vs ← decodeVal (.vec τ) vs
+    let τ2 ← decodeTy ty2
+    let xs ← decodeVal (.vec τ2) xs
+    let plan := DNM.planOf (leVal τ) vs
+    agree (.vec τ2) (listEq τ2) (reindexO plan (rwVal (planFn plan) τ2) xs) res
+  | "rewrite", [plan, ty2, x, res] => do
+    let plan ← plan.nats?
+    let τ2 ← decodeTy ty2
+    let x ← decodeVal τ2 x
+    agree τ2 (equivB τ2) (rwVal (planFn plan) τ2 x) res
+  | "repr", [sty, st, res] => do
+    let (s, m, t, r, h) ← stateTys sty
+    let v ← decodeVal (Ty.state s m t r h) st
+    let model := representative (St.ofVal v)
+    match res with
+    | .atom "panic" => pure (if model.isNone then "ok" else model.elim "panic" stStr)
+    | e => do
+      let rv ← decodeVal (Ty.state s m t r h) e
+      pure (match model with
+        | some x => if x.eqB (St.ofVal rv) then "ok" else stStr x
+        | none => "panic")
+  -- oracle: orbit membership of the implementation's representative, by brute force over all permutations
+  | "o-orbit", [sty, st, res] => do
+    let (s, m, t, r, h) ← stateTys sty
+    let v ← decodeVal (Ty.state s m t r h) st
+    let x := St.ofVal v
+    let images := (perms x.actors.length).map fun π => applyPerm false π x
+    match res with
+    | .atom "panic" =>
+      pure (if images.all Option.isNone then "ok" else "panic-although-a-permutation-image-exists")
+    | e => do
+      let rv ← decodeVal (Ty.state s m t r h) e
+      let y := St.ofVal rv
+      pure (if images.any (fun o => match o with | some z => z.eqB y | none => false) then "ok"
+        else "representative-not-in-the-orbit")
   | _, _ => none
+
 end SR.Drv.C10
